@@ -126,7 +126,7 @@ MethOfKind(k) == CASE k = "unary" -> "/verif.Svc/Unary"
 
 -----------------------------------------------------------------------------
 Init ==
-  /\ cfg = [srv |-> "srv", rawcli |-> FALSE, rawsrv |-> FALSE, ncli |-> 1, cli |-> "cli1", relay |-> ""]
+  /\ cfg = [srv |-> "srv", rawcli |-> FALSE, rawsrv |-> FALSE, ncli |-> 1, cli |-> "cli1", relay |-> "", dst |-> "srv"]
   /\ phase = "run" /\ now = 0
   /\ calls = <<>> /\ byId = <<>> /\ hi = 0 /\ gaps = {}
   /\ cw = <<>> /\ nSR = 0 /\ sw = <<>> /\ nCR = 0
@@ -182,7 +182,7 @@ UseId(n) == IF n > hi \/ n < 0 THEN /\ hi' = n
 HdrConst(env, c) == /\ env.h = 1
                     /\ env.meth = MethOfKind(calls[c].kind)
                     /\ env.src = cfg.cli
-                    /\ env.dst = cfg.srv
+                    /\ env.dst = cfg.dst
 
 ClientWrite(env) ==
   /\ ~cfg.rawcli
